@@ -619,6 +619,24 @@ func main() {
 	}
 
 	if f.Replay != "" {
+		if rp, err := common.LoadReplay(f.Replay); err == nil && rp.Violation.Input["scenario"] == "" && rp.Violation.Input["x"] != "" && rn.m != nil {
+			// a ParseInt(TrimSpace(.)) disagreement
+			x := string(common.UnHex(rp.Violation.Input["x"]))
+			v, perr := strconv.ParseInt(strings.TrimSpace(x), 10, 64)
+			want := "none"
+			if perr == nil {
+				want = "some " + strconv.FormatInt(v, 10)
+			}
+			got := rn.m.Ask1("parse " + common.Hex([]byte(x)))
+			res.Case("parse:"+x, true)
+			if got != want {
+				res.Violate(common.Violation{Kind: "correspondence", Oracle: "parse", Key: "parse:" + common.Hex([]byte(x)),
+					Input: map[string]string{"x": common.Hex([]byte(x)), "x_text": fmt.Sprintf("%q", x)}, Model: got, Impl: want})
+			}
+			res.Rule = "replay of one recorded string"
+			res.Write(f.Out)
+			return
+		}
 		scn, err := loadScenario(f.Replay)
 		if err != nil {
 			fmt.Fprintln(os.Stderr, err)
